@@ -900,6 +900,9 @@ m("c09-overflow-test-ignored", "C09", "x/vesting/types/msg.go",
 m("c07-gas-sum-unchecked", "C07", "app/ante/evm/setup_ctx.go",
   "\t\tif msgGas := msgEthTx.GetGas(); msgGas > math.MaxInt64 || txGasLimit > math.MaxInt64-msgGas {", "\t\tif msgGas := msgEthTx.GetGas(); msgGas == 0 && txGasLimit > math.MaxInt64 {",
   "overflow-tested", "the overflow test no longer involves the message's gas")
+m("c01-estimation-uses-node-tracer", "C01", "x/evm/keeper/grpc_query.go",
+  "\t\tif fromType == types.Internal {\n\t\t\ttracer = types.NewNoOpTracer()\n\t\t}\n", "\t\tif fromType == types.RPC {\n\t\t\ttracer = types.NewNoOpTracer()\n\t\t}\n",
+  "EstimateGasInternal#tracer", "internal estimations run with the node's configured tracer again")
 for prop in ("C16", "C07"):
     m("c%s-gas-meter-without-precharge" % prop[1:], prop, "precompiles/common/precompile.go",
       "sdk.NewGasMeter(initialGas + contract.Gas)", "sdk.NewGasMeter(contract.Gas)",
